@@ -90,3 +90,20 @@ contract(f"{G}::PrimaiteGame.action_mask", props=["C11"], bounded=3,
                                             " form_req(agent.action_manager, dict_val(agent.action_manager.action_map, j)[0], dict_val(agent.action_manager.action_map, j)[1]),"
                                             " seq({}), epoch()) == 2))")],
                     "modifies": ["mask[*]"]}})
+
+# ---- the mask is read at the start of a step and the action applied after pre_timestep: nothing in between changes what the rules read --------
+from pyvc.contracts import scan  # noqa: E402
+from pyvc import scans as _scans  # noqa: E402
+scan("C11", "mask-window", lambda: _scans.pre_timestep_keeps_rule_state())
+
+# ---- the environment's mask is the mask of the CURRENT game (a reset builds a new game each episode) ------------------------------------------
+ENVF = "src/primaite/session/environment.py"
+from pyvc.contracts import dispatch_contract  # noqa: E402
+dispatch_contract("src/primaite/game/game.py::PrimaiteGame.action_mask", ensures=[], modifies=[],
+                  emits=[("mask", ["self", "agent_name"])], exact_events=True, allocates=True)
+contract(f"{ENVF}::PrimaiteGymEnv.action_masks", props=["C11"], use_dispatch=["action_mask"],
+         requires=["self._agent_name in self.game.rl_agents"],
+         ensures=[("mask_of_the_current_game", "implies(self.game.rl_agents[self._agent_name].config.agent_settings.action_masking,"
+                                               " n_events() == old(n_events()) + 1 and event_kind(old(n_events())) == ev('mask')"
+                                               " and event_arg(old(n_events()), 0) is self.game and event_arg(old(n_events()), 1) == self._agent_name)")],
+         modifies=[], allocates=True)
